@@ -10,7 +10,10 @@
                      [script_kept_same], [script_hunks_keep_changes], [script_hunks_contiguous], ...
    4. report level : [script_counts], [script_lines_truthful], [script_residual],
                      [report_of_script_empty_iff], [report_of_script_no_esc_In],
-                     [read_report_of_script] and the printed_* corollaries.
+                     [read_report_of_script] and the printed_* corollaries; each is the
+                     [n := context] instance of a [.._n] theorem about [unified_of_script_n] /
+                     [report_of_script_n], proved for EVERY number n of context lines (no
+                     hypothesis on n is needed anywhere, n = 0 included).
    5. examples by [vm_compute].
 
    Which statements need validity: counts, truthfulness of `-`/`+` lines, no-escape, "hunks keep
@@ -301,62 +304,111 @@ Theorem hunks_contiguous_of_abuts n (ops : list opcode) :
 Proof. apply grouped_of_codes_abuts. Qed.
 
 (* ================================================================== *)
-(** * 4. Report level *)
+(** * 4. Report level
 
-(* ---- facts true of every opcode list ---- *)
+    Every theorem is proved for an ARBITRARY number [n] of context lines ([unified_of_script_n],
+    [report_of_script_n]); the statements about [unified_of_script] / [report_of_script] (the
+    [n := context] instances, see the three [_context] lemmas) are corollaries, by conversion.
+
+    What depends on [n]: only WHICH unchanged lines are shown and where hunks are cut.  No theorem
+    below needs a hypothesis on [n]; in particular [n = 0] is fine ([grouped_of_codes 0] cuts every
+    Equal opcode into two EMPTY Equal opcodes, one closing the hunk before it and one opening the
+    hunk after it; changes are never dropped: [script_hunks_keep_changes] holds for every n, so
+    the report of two different texts is non-empty for every n; see [ex_n_zero]). *)
+
+(* the existing functions are the [context] instances *)
+Lemma groups_of_script_n_context (ops : list opcode) :
+  groups_of_script_n context ops = groups_of_script ops.
+Proof. reflexivity. Qed.
+
+Lemma unified_of_script_n_context (al bl : list bytes) (ops : list opcode) :
+  unified_of_script_n context al bl ops = unified_of_script al bl ops.
+Proof. reflexivity. Qed.
+
+Lemma report_of_script_n_context (a b : bytes) (ops : list opcode) (name : bytes) (line : nat) :
+  report_of_script_n context a b ops name line = report_of_script a b ops name line.
+Proof. reflexivity. Qed.
+
+(* ---- facts true of every opcode list and every n ---- *)
 
 (** header counts = numbers of `+` / `-` lines shown (unified_counts analogue) *)
-Theorem script_counts (al bl : list bytes) (ops : list opcode) :
-  r_ins (unified_of_script al bl ops) = count_ins (r_lines (unified_of_script al bl ops)) /\
-  r_del (unified_of_script al bl ops) = count_del (r_lines (unified_of_script al bl ops)).
+Theorem script_counts_n (n : nat) (al bl : list bytes) (ops : list opcode) :
+  r_ins (unified_of_script_n n al bl ops) = count_ins (r_lines (unified_of_script_n n al bl ops)) /\
+  r_del (unified_of_script_n n al bl ops) = count_del (r_lines (unified_of_script_n n al bl ops)).
 Proof.
-  unfold unified_of_script.
-  induction (groups_of_script ops) as [|g gs [IH1 IH2]]; cbn [fold_right]; [now split|].
+  unfold unified_of_script_n.
+  induction (groups_of_script_n n ops) as [|g gs [IH1 IH2]]; cbn [fold_right]; [now split|].
   rewrite r_ins_add, r_del_add, r_lines_add, count_ins_app, count_del_app, IH1, IH2.
   match goal with |- context [group_lines ?sr ?al ?bl g] =>
     destruct (group_lines_counts sr al bl g) as [-> ->] end.
   now split.
 Qed.
 
+Theorem script_counts (al bl : list bytes) (ops : list opcode) :
+  r_ins (unified_of_script al bl ops) = count_ins (r_lines (unified_of_script al bl ops)) /\
+  r_del (unified_of_script al bl ops) = count_del (r_lines (unified_of_script al bl ops)).
+Proof. exact (script_counts_n context al bl ops). Qed.
+
 (** the `-` lines shown are exactly the a-lines of the Delete/Replace opcodes of the script, the `+`
-    lines exactly the b-lines of its Insert/Replace opcodes *)
-Theorem script_del_lines (al bl : list bytes) (ops : list opcode) :
-  del_lines (r_lines (unified_of_script al bl ops)) = concat (map (deleted_of al) ops).
+    lines exactly the b-lines of its Insert/Replace opcodes: the same lines for every n *)
+Theorem script_del_lines_n (n : nat) (al bl : list bytes) (ops : list opcode) :
+  del_lines (r_lines (unified_of_script_n n al bl ops)) = concat (map (deleted_of al) ops).
 Proof.
-  unfold unified_of_script, groups_of_script. rewrite groups_lines_del.
+  unfold unified_of_script_n, groups_of_script_n. rewrite groups_lines_del.
   rewrite concat_deleted_filter, grouped_of_codes_no_change_lost. symmetry. apply concat_deleted_filter.
 Qed.
 
-Theorem script_ins_lines (al bl : list bytes) (ops : list opcode) :
-  ins_lines (r_lines (unified_of_script al bl ops)) = concat (map (inserted_of bl) ops).
+Theorem script_ins_lines_n (n : nat) (al bl : list bytes) (ops : list opcode) :
+  ins_lines (r_lines (unified_of_script_n n al bl ops)) = concat (map (inserted_of bl) ops).
 Proof.
-  unfold unified_of_script, groups_of_script. rewrite groups_lines_ins.
+  unfold unified_of_script_n, groups_of_script_n. rewrite groups_lines_ins.
   rewrite concat_inserted_filter, grouped_of_codes_no_change_lost. symmetry. apply concat_inserted_filter.
 Qed.
 
+Theorem script_del_lines (al bl : list bytes) (ops : list opcode) :
+  del_lines (r_lines (unified_of_script al bl ops)) = concat (map (deleted_of al) ops).
+Proof. exact (script_del_lines_n context al bl ops). Qed.
+
+Theorem script_ins_lines (al bl : list bytes) (ops : list opcode) :
+  ins_lines (r_lines (unified_of_script al bl ops)) = concat (map (inserted_of bl) ops).
+Proof. exact (script_ins_lines_n context al bl ops). Qed.
+
+(* hence the `-` / `+` lines and the two counts do not depend on the number of context lines *)
+Corollary script_changes_independent_of_n (n m : nat) (al bl : list bytes) (ops : list opcode) :
+  del_lines (r_lines (unified_of_script_n n al bl ops))
+  = del_lines (r_lines (unified_of_script_n m al bl ops)) /\
+  ins_lines (r_lines (unified_of_script_n n al bl ops))
+  = ins_lines (r_lines (unified_of_script_n m al bl ops)).
+Proof. now rewrite !script_del_lines_n, !script_ins_lines_n. Qed.
+
 (** every `-` line is a line of the first sequence, every `+` line a line of the second
     (report_lines_truthful analogue) *)
-Theorem script_lines_truthful (al bl : list bytes) (ops : list opcode) (l : bytes) :
-  (In (RDel l) (r_lines (unified_of_script al bl ops)) -> In l al) /\
-  (In (RIns l) (r_lines (unified_of_script al bl ops)) -> In l bl).
+Theorem script_lines_truthful_n (n : nat) (al bl : list bytes) (ops : list opcode) (l : bytes) :
+  (In (RDel l) (r_lines (unified_of_script_n n al bl ops)) -> In l al) /\
+  (In (RIns l) (r_lines (unified_of_script_n n al bl ops)) -> In l bl).
 Proof.
   split; intros H.
-  - apply In_del_lines in H. rewrite script_del_lines in H.
+  - apply In_del_lines in H. rewrite script_del_lines_n in H.
     apply In_concat_map in H as (c & _ & H). unfold deleted_of in H.
     destruct (op_tag c); try contradiction; eapply In_slice, H.
-  - apply In_ins_lines in H. rewrite script_ins_lines in H.
+  - apply In_ins_lines in H. rewrite script_ins_lines_n in H.
     apply In_concat_map in H as (c & _ & H). unfold inserted_of in H.
     destruct (op_tag c); try contradiction; eapply In_slice, H.
 Qed.
 
+Theorem script_lines_truthful (al bl : list bytes) (ops : list opcode) (l : bytes) :
+  (In (RDel l) (r_lines (unified_of_script al bl ops)) -> In l al) /\
+  (In (RIns l) (r_lines (unified_of_script al bl ops)) -> In l bl).
+Proof. exact (script_lines_truthful_n context al bl ops l). Qed.
+
 (* where a report line comes from *)
-Lemma script_unified_In (al bl : list bytes) (ops : list opcode) r :
-  In r (r_lines (unified_of_script al bl ops)) ->
-  exists g, In g (groups_of_script ops) /\
+Lemma script_unified_In_n (n : nat) (al bl : list bytes) (ops : list opcode) r :
+  In r (r_lines (unified_of_script_n n al bl ops)) ->
+  exists g, In g (groups_of_script_n n ops) /\
     (r = range_line g \/ exists c, In c g /\ In r (r_lines (op_lines al bl c))).
 Proof.
-  unfold unified_of_script.
-  induction (groups_of_script ops) as [|g gs IH]; cbn [fold_right]; [intros []|].
+  unfold unified_of_script_n.
+  induction (groups_of_script_n n ops) as [|g gs IH]; cbn [fold_right]; [intros []|].
   rewrite r_lines_add. intros H. apply in_app_or in H as [H|H].
   - exists g. split; [now left|]. unfold group_lines in H. rewrite r_lines_add in H.
     apply in_app_or in H as [H|H].
@@ -365,55 +417,94 @@ Proof.
   - destruct (IH H) as (g' & Hg & Hr). exists g'. split; [now right|exact Hr].
 Qed.
 
+Lemma script_unified_In (al bl : list bytes) (ops : list opcode) r :
+  In r (r_lines (unified_of_script al bl ops)) ->
+  exists g, In g (groups_of_script ops) /\
+    (r = range_line g \/ exists c, In c g /\ In r (r_lines (op_lines al bl c))).
+Proof. exact (script_unified_In_n context al bl ops r). Qed.
+
 (* no ESC byte appears in the structure when none is in the lines *)
-Lemma script_unified_clean (al bl : list bytes) (ops : list opcode) :
+Lemma script_unified_clean_n (n : nat) (al bl : list bytes) (ops : list opcode) :
   (forall x, In x al -> no_esc x = true) -> (forall x, In x bl -> no_esc x = true) ->
-  lines_clean (r_lines (unified_of_script al bl ops)).
+  lines_clean (r_lines (unified_of_script_n n al bl ops)).
 Proof.
-  intros Ha Hb. unfold unified_of_script.
-  induction (groups_of_script ops) as [|g gs IH]; cbn [fold_right]; [constructor|].
+  intros Ha Hb. unfold unified_of_script_n.
+  induction (groups_of_script_n n ops) as [|g gs IH]; cbn [fold_right]; [constructor|].
   rewrite r_lines_add. apply Forall_app. split; [|exact IH]. now apply group_lines_clean.
 Qed.
 
+Lemma script_unified_clean (al bl : list bytes) (ops : list opcode) :
+  (forall x, In x al -> no_esc x = true) -> (forall x, In x bl -> no_esc x = true) ->
+  lines_clean (r_lines (unified_of_script al bl ops)).
+Proof. exact (script_unified_clean_n context al bl ops). Qed.
+
 (* the structure satisfies the invariant that makes the printed text unambiguous *)
-Lemma script_unified_wf (al bl : list bytes) (ops : list opcode) :
+Lemma script_unified_wf_n (n : nat) (al bl : list bytes) (ops : list opcode) :
   (forall l, In l al -> text_line_ok l) -> (forall l, In l bl -> text_line_ok l) ->
-  Forall rline_wf (r_lines (unified_of_script al bl ops)).
+  Forall rline_wf (r_lines (unified_of_script_n n al bl ops)).
 Proof.
   intros Ha Hb. apply Forall_forall. intros r H.
-  apply script_unified_In in H as (g & _ & [->|(c & _ & H)]).
+  apply script_unified_In_n in H as (g & _ & [->|(c & _ & H)]).
   - unfold range_line. cbn [rline_wf]. split; apply format_range_ok.
   - eapply op_lines_wf; [exact Ha|exact Hb|exact H].
 Qed.
 
+Lemma script_unified_wf (al bl : list bytes) (ops : list opcode) :
+  (forall l, In l al -> text_line_ok l) -> (forall l, In l bl -> text_line_ok l) ->
+  Forall rline_wf (r_lines (unified_of_script al bl ops)).
+Proof. exact (script_unified_wf_n context al bl ops). Qed.
+
 (** NO_COLOR mode adds no escape byte: every opcode list (pretty_diff_no_esc analogue) *)
-Theorem report_of_script_no_esc (a b : bytes) (ops : list opcode) (name : bytes) (line : nat) :
+Theorem report_of_script_n_no_esc (n : nat) (a b : bytes) (ops : list opcode) (name : bytes)
+        (line : nat) :
   no_esc a = true -> no_esc b = true -> no_esc name = true ->
-  no_esc (report_of_script a b ops name line) = true.
+  no_esc (report_of_script_n n a b ops name line) = true.
 Proof.
-  intros Ha Hb Hn. unfold report_of_script. destruct (beq a b); [reflexivity|].
-  assert (Hc : lines_clean (r_lines (unified_of_script (split_newlines a) (split_newlines b) ops))).
-  { apply script_unified_clean; intros x Hx;
+  intros Ha Hb Hn. unfold report_of_script_n. destruct (beq a b); [reflexivity|].
+  assert (Hc : lines_clean (r_lines (unified_of_script_n n (split_newlines a) (split_newlines b) ops))).
+  { apply script_unified_clean_n; intros x Hx;
       [apply (no_esc_split_newlines a)|apply (no_esc_split_newlines b)]; assumption. }
   unfold render_nocolor.
-  destruct (unified_of_script (split_newlines a) (split_newlines b) ops) as [[ls i] d].
+  destruct (unified_of_script_n n (split_newlines a) (split_newlines b) ops) as [[ls i] d].
   cbn [r_lines fst] in Hc.
   apply build_report_clean; [|exact Hn]. now apply render_body_clean.
 Qed.
 
-Corollary report_of_script_no_esc_In (a b : bytes) (ops : list opcode) (name : bytes) (line : nat) :
-  ~ In 27%N (a ++ b ++ name) -> ~ In 27%N (report_of_script a b ops name line).
+Corollary report_of_script_n_no_esc_In (n : nat) (a b : bytes) (ops : list opcode) (name : bytes)
+          (line : nat) :
+  ~ In 27%N (a ++ b ++ name) -> ~ In 27%N (report_of_script_n n a b ops name line).
 Proof.
-  intros H. apply no_esc_iff, report_of_script_no_esc; apply no_esc_iff; intros Hin; apply H;
+  intros H. apply no_esc_iff, report_of_script_n_no_esc; apply no_esc_iff; intros Hin; apply H;
     rewrite !in_app_iff; auto.
 Qed.
 
-(* ---- facts of valid scripts ---- *)
+Theorem report_of_script_no_esc (a b : bytes) (ops : list opcode) (name : bytes) (line : nat) :
+  no_esc a = true -> no_esc b = true -> no_esc name = true ->
+  no_esc (report_of_script a b ops name line) = true.
+Proof. exact (report_of_script_n_no_esc context a b ops name line). Qed.
+
+Corollary report_of_script_no_esc_In (a b : bytes) (ops : list opcode) (name : bytes) (line : nat) :
+  ~ In 27%N (a ++ b ++ name) -> ~ In 27%N (report_of_script a b ops name line).
+Proof. exact (report_of_script_n_no_esc_In context a b ops name line). Qed.
+
+(* ---- facts of valid scripts, for every n ---- *)
 
 (** residual (C13_residual / report_residual with [ops] an arbitrary valid script, at the level of
     line sequences): both sequences decompose along the script into kept + deleted, resp. kept +
     inserted pieces, the kept pieces coincide, and the `-`/`+` lines shown are exactly the deleted /
     inserted pieces *)
+Theorem script_residual_gen_n (n : nat) (al bl : list bytes) (ops : list opcode) :
+  valid_script al bl ops = true ->
+  al = concat (map (fun c => kept_a_of al c ++ deleted_of al c) ops) /\
+  bl = concat (map (fun c => kept_a_of al c ++ inserted_of bl c) ops) /\
+  map (kept_a_of al) ops = map (kept_b_of bl) ops /\
+  del_lines (r_lines (unified_of_script_n n al bl ops)) = concat (map (deleted_of al) ops) /\
+  ins_lines (r_lines (unified_of_script_n n al bl ops)) = concat (map (inserted_of bl) ops).
+Proof.
+  intros Hv. destruct (script_residual_lines al bl ops Hv) as (H1 & H2 & H3).
+  repeat split; [exact H1|exact H2|exact H3|apply script_del_lines_n|apply script_ins_lines_n].
+Qed.
+
 Theorem script_residual_gen (al bl : list bytes) (ops : list opcode) :
   valid_script al bl ops = true ->
   al = concat (map (fun c => kept_a_of al c ++ deleted_of al c) ops) /\
@@ -421,12 +512,20 @@ Theorem script_residual_gen (al bl : list bytes) (ops : list opcode) :
   map (kept_a_of al) ops = map (kept_b_of bl) ops /\
   del_lines (r_lines (unified_of_script al bl ops)) = concat (map (deleted_of al) ops) /\
   ins_lines (r_lines (unified_of_script al bl ops)) = concat (map (inserted_of bl) ops).
-Proof.
-  intros Hv. destruct (script_residual_lines al bl ops Hv) as (H1 & H2 & H3).
-  repeat split; [exact H1|exact H2|exact H3|apply script_del_lines|apply script_ins_lines].
-Qed.
+Proof. exact (script_residual_gen_n context al bl ops). Qed.
 
 (** the same with the formulation of [C13_residual]: texts, split into lines *)
+Theorem script_residual_n (n : nat) (a b : bytes) (ops : list opcode) :
+  let al := split_newlines a in
+  let bl := split_newlines b in
+  valid_script al bl ops = true ->
+  al = concat (map (fun c => kept_a_of al c ++ deleted_of al c) ops) /\
+  bl = concat (map (fun c => kept_a_of al c ++ inserted_of bl c) ops) /\
+  map (kept_a_of al) ops = map (kept_b_of bl) ops /\
+  del_lines (r_lines (unified_of_script_n n al bl ops)) = concat (map (deleted_of al) ops) /\
+  ins_lines (r_lines (unified_of_script_n n al bl ops)) = concat (map (inserted_of bl) ops).
+Proof. intros al bl. apply script_residual_gen_n. Qed.
+
 Theorem script_residual (a b : bytes) (ops : list opcode) :
   let al := split_newlines a in
   let bl := split_newlines b in
@@ -436,15 +535,15 @@ Theorem script_residual (a b : bytes) (ops : list opcode) :
   map (kept_a_of al) ops = map (kept_b_of bl) ops /\
   del_lines (r_lines (unified_of_script al bl ops)) = concat (map (deleted_of al) ops) /\
   ins_lines (r_lines (unified_of_script al bl ops)) = concat (map (inserted_of bl) ops).
-Proof. intros al bl. apply script_residual_gen. Qed.
+Proof. exact (script_residual_n context a b ops). Qed.
 
 (** every context line of the report is a line common to both sequences *)
-Theorem script_context_lines_common (al bl : list bytes) (ops : list opcode) (l : bytes) :
+Theorem script_context_lines_common_n (n : nat) (al bl : list bytes) (ops : list opcode) (l : bytes) :
   valid_script al bl ops = true ->
-  In (REq l) (r_lines (unified_of_script al bl ops)) ->
+  In (REq l) (r_lines (unified_of_script_n n al bl ops)) ->
   exists l0, In l0 al /\ In l0 bl /\ l = show_equal_line l0.
 Proof.
-  intros Hv H. apply script_unified_In in H as (g & Hg & [H|(c & Hc & H)]); [discriminate|].
+  intros Hv H. apply script_unified_In_n in H as (g & Hg & [H|(c & Hc & H)]); [discriminate|].
   destruct (script_grouped_ops_sound al bl ops Hv _ _ _ Hg Hc) as [(_ & _ & _ & _ & Hok) _].
   unfold op_lines in H. destruct (op_tag c) eqn:E; cbn [r_lines fst] in H.
   - destruct (Hok eq_refl) as [_ Es].
@@ -456,11 +555,17 @@ Proof.
   - apply in_app_or in H as [H|H]; apply in_map_iff in H as (? & ? & _); discriminate.
 Qed.
 
-(* a valid script of two different sequences shows a `-` or a `+` line *)
-Lemma script_unified_has_change (al bl : list bytes) (ops : list opcode) :
+Theorem script_context_lines_common (al bl : list bytes) (ops : list opcode) (l : bytes) :
+  valid_script al bl ops = true ->
+  In (REq l) (r_lines (unified_of_script al bl ops)) ->
+  exists l0, In l0 al /\ In l0 bl /\ l = show_equal_line l0.
+Proof. exact (script_context_lines_common_n context al bl ops l). Qed.
+
+(* a valid script of two different sequences shows a `-` or a `+` line, for every n (0 included) *)
+Lemma script_unified_has_change_n (n : nat) (al bl : list bytes) (ops : list opcode) :
   valid_script al bl ops = true -> al <> bl ->
-  exists l, In (RDel l) (r_lines (unified_of_script al bl ops)) \/
-            In (RIns l) (r_lines (unified_of_script al bl ops)).
+  exists l, In (RDel l) (r_lines (unified_of_script_n n al bl ops)) \/
+            In (RIns l) (r_lines (unified_of_script_n n al bl ops)).
 Proof.
   intros Hv Hne.
   destruct (script_has_non_equal al bl ops Hv Hne) as (c & Hin & Hc).
@@ -472,41 +577,63 @@ Proof.
     - left. apply nonempty_has_elem, slice_nonempty; [apply Hs|exact Hb1].
     - left. apply nonempty_has_elem, slice_nonempty; [apply Hs|exact Hb1]. }
   destruct Hd as [(l & Hl)|(l & Hl)]; exists l; [left|right].
-  - apply In_del_lines. rewrite script_del_lines. apply in_concat.
+  - apply In_del_lines. rewrite script_del_lines_n. apply in_concat.
     exists (deleted_of al c). split; [|exact Hl]. apply in_map. exact Hin.
-  - apply In_ins_lines. rewrite script_ins_lines. apply in_concat.
+  - apply In_ins_lines. rewrite script_ins_lines_n. apply in_concat.
     exists (inserted_of bl c). split; [|exact Hl]. apply in_map. exact Hin.
+Qed.
+
+Lemma script_unified_has_change (al bl : list bytes) (ops : list opcode) :
+  valid_script al bl ops = true -> al <> bl ->
+  exists l, In (RDel l) (r_lines (unified_of_script al bl ops)) \/
+            In (RIns l) (r_lines (unified_of_script al bl ops)).
+Proof. exact (script_unified_has_change_n context al bl ops). Qed.
+
+Lemma script_unified_nonempty_n (n : nat) (a b : bytes) (ops : list opcode) :
+  valid_script (split_newlines a) (split_newlines b) ops = true -> a <> b ->
+  r_lines (unified_of_script_n n (split_newlines a) (split_newlines b) ops) <> [].
+Proof.
+  intros Hv Hne E.
+  assert (Hl : split_newlines a <> split_newlines b)
+    by (intros El; now apply Hne, split_newlines_inj).
+  destruct (script_unified_has_change_n n _ _ ops Hv Hl) as (l & Hl').
+  rewrite E in Hl'. destruct Hl' as [[]|[]].
 Qed.
 
 Lemma script_unified_nonempty (a b : bytes) (ops : list opcode) :
   valid_script (split_newlines a) (split_newlines b) ops = true -> a <> b ->
   r_lines (unified_of_script (split_newlines a) (split_newlines b) ops) <> [].
-Proof.
-  intros Hv Hne E.
-  assert (Hl : split_newlines a <> split_newlines b)
-    by (intros El; now apply Hne, split_newlines_inj).
-  destruct (script_unified_has_change _ _ ops Hv Hl) as (l & Hl').
-  rewrite E in Hl'. destruct Hl' as [[]|[]].
-Qed.
+Proof. exact (script_unified_nonempty_n context a b ops). Qed.
 
-(** the report of a valid script is empty iff the texts are byte-identical (C13_empty_iff) *)
-Theorem report_of_script_empty_iff (a b : bytes) (ops : list opcode) (name : bytes) (line : nat) :
+(** the report of a valid script is empty iff the texts are byte-identical (C13_empty_iff),
+    whatever the number of context lines *)
+Theorem report_of_script_n_empty_iff (n : nat) (a b : bytes) (ops : list opcode) (name : bytes)
+        (line : nat) :
   valid_script (split_newlines a) (split_newlines b) ops = true ->
-  (report_of_script a b ops name line = [] <-> a = b).
+  (report_of_script_n n a b ops name line = [] <-> a = b).
 Proof.
-  intros Hv. unfold report_of_script. destruct (beq_spec a b) as [->|Hne]; [tauto|].
+  intros Hv. unfold report_of_script_n. destruct (beq_spec a b) as [->|Hne]; [tauto|].
   split; [|congruence]. intros H. exfalso.
-  pose proof (script_unified_nonempty a b ops Hv Hne) as Hl.
+  pose proof (script_unified_nonempty_n n a b ops Hv Hne) as Hl.
   unfold render_nocolor in H.
-  destruct (unified_of_script (split_newlines a) (split_newlines b) ops) as [[ls i] d].
+  destruct (unified_of_script_n n (split_newlines a) (split_newlines b) ops) as [[ls i] d].
   cbn [r_lines fst] in Hl.
   revert H. now apply build_report_nonempty, render_body_nonempty.
 Qed.
 
+Theorem report_of_script_empty_iff (a b : bytes) (ops : list opcode) (name : bytes) (line : nat) :
+  valid_script (split_newlines a) (split_newlines b) ops = true ->
+  (report_of_script a b ops name line = [] <-> a = b).
+Proof. exact (report_of_script_n_empty_iff context a b ops name line). Qed.
+
 (* the direction that needs no validity *)
+Theorem report_of_script_n_same (n : nat) (a : bytes) (ops : list opcode) (name : bytes) (line : nat) :
+  report_of_script_n n a a ops name line = [].
+Proof. unfold report_of_script_n. now rewrite beq_refl. Qed.
+
 Theorem report_of_script_same (a : bytes) (ops : list opcode) (name : bytes) (line : nat) :
   report_of_script a a ops name line = [].
-Proof. unfold report_of_script. now rewrite beq_refl. Qed.
+Proof. exact (report_of_script_n_same context a ops name line). Qed.
 
 (* ---- the printed bytes ---- *)
 
@@ -519,7 +646,27 @@ Proof.
   now apply read_render_lbl_correct.
 Qed.
 
-(** the reader theorem (C13_report_readable / read_report_correct) for every valid script *)
+(** the reader theorem (C13_report_readable / read_report_correct) for every valid script and
+    every number of context lines *)
+Theorem read_report_of_script_n (n : nat) (a b : bytes) (ops : list opcode) (name : bytes)
+        (line : nat) :
+  let al := split_newlines a in
+  let bl := split_newlines b in
+  valid_script al bl ops = true -> a <> b -> name_ok name = true ->
+  read_report (report_of_script_n n a b ops name line) =
+  Some {| rr_del_count := r_del (unified_of_script_n n al bl ops);
+          rr_ins_count := r_ins (unified_of_script_n n al bl ops);
+          rr_lines := r_lines (unified_of_script_n n al bl ops);
+          rr_footer := match name with [] => None | _ :: _ => Some (name, line) end |}.
+Proof.
+  intros al bl Hv Hne Hname. unfold report_of_script_n.
+  apply beq_neq in Hne as Hb. rewrite Hb.
+  apply (read_render_correct (unified_of_script_n n al bl ops) name line).
+  - apply script_unified_wf_n; apply split_newlines_line_ok.
+  - now apply script_unified_nonempty_n.
+  - exact Hname.
+Qed.
+
 Theorem read_report_of_script (a b : bytes) (ops : list opcode) (name : bytes) (line : nat) :
   let al := split_newlines a in
   let bl := split_newlines b in
@@ -529,36 +676,56 @@ Theorem read_report_of_script (a b : bytes) (ops : list opcode) (name : bytes) (
           rr_ins_count := r_ins (unified_of_script al bl ops);
           rr_lines := r_lines (unified_of_script al bl ops);
           rr_footer := match name with [] => None | _ :: _ => Some (name, line) end |}.
-Proof.
-  intros al bl Hv Hne Hname. unfold report_of_script.
-  apply beq_neq in Hne as Hb. rewrite Hb.
-  apply (read_render_correct (unified_of_script al bl ops) name line).
-  - apply script_unified_wf; apply split_newlines_line_ok.
-  - now apply script_unified_nonempty.
-  - exact Hname.
-Qed.
+Proof. exact (read_report_of_script_n context a b ops name line). Qed.
 
 (** printed counts: the two numbers in the header equal the numbers of `- ` and `+ ` lines shown *)
+Theorem script_printed_counts_n (n : nat) (a b : bytes) (ops : list opcode) (name : bytes)
+        (line : nat) :
+  valid_script (split_newlines a) (split_newlines b) ops = true -> a <> b -> name_ok name = true ->
+  exists rr, read_report (report_of_script_n n a b ops name line) = Some rr /\
+             rr_del_count rr = count_del (rr_lines rr) /\ rr_ins_count rr = count_ins (rr_lines rr).
+Proof.
+  intros Hv Hne Hn. eexists. split; [apply read_report_of_script_n; assumption|].
+  cbn [rr_del_count rr_ins_count rr_lines].
+  destruct (script_counts_n n (split_newlines a) (split_newlines b) ops) as [Hi Hd]. now split.
+Qed.
+
 Theorem script_printed_counts (a b : bytes) (ops : list opcode) (name : bytes) (line : nat) :
   valid_script (split_newlines a) (split_newlines b) ops = true -> a <> b -> name_ok name = true ->
   exists rr, read_report (report_of_script a b ops name line) = Some rr /\
              rr_del_count rr = count_del (rr_lines rr) /\ rr_ins_count rr = count_ins (rr_lines rr).
-Proof.
-  intros Hv Hne Hn. eexists. split; [apply read_report_of_script; assumption|].
-  cbn [rr_del_count rr_ins_count rr_lines].
-  destruct (script_counts (split_newlines a) (split_newlines b) ops) as [Hi Hd]. now split.
-Qed.
+Proof. exact (script_printed_counts_n context a b ops name line). Qed.
 
 (** printed lines: every line printed behind `- ` is a line of the stored text, every line behind
     `+ ` a line of the received text *)
+Theorem script_printed_lines_truthful_n (n : nat) (a b : bytes) (ops : list opcode) (name : bytes)
+        (line : nat) :
+  valid_script (split_newlines a) (split_newlines b) ops = true -> a <> b -> name_ok name = true ->
+  exists rr, read_report (report_of_script_n n a b ops name line) = Some rr /\
+             (forall l, In (RDel l) (rr_lines rr) -> In l (split_newlines a)) /\
+             (forall l, In (RIns l) (rr_lines rr) -> In l (split_newlines b)).
+Proof.
+  intros Hv Hne Hn. eexists. split; [apply read_report_of_script_n; assumption|].
+  cbn [rr_lines]. split; intros l; apply (script_lines_truthful_n n _ _ ops l).
+Qed.
+
 Theorem script_printed_lines_truthful (a b : bytes) (ops : list opcode) (name : bytes) (line : nat) :
   valid_script (split_newlines a) (split_newlines b) ops = true -> a <> b -> name_ok name = true ->
   exists rr, read_report (report_of_script a b ops name line) = Some rr /\
              (forall l, In (RDel l) (rr_lines rr) -> In l (split_newlines a)) /\
              (forall l, In (RIns l) (rr_lines rr) -> In l (split_newlines b)).
+Proof. exact (script_printed_lines_truthful_n context a b ops name line). Qed.
+
+Theorem script_printed_context_common_n (n : nat) (a b : bytes) (ops : list opcode) (name : bytes)
+        (line : nat) :
+  valid_script (split_newlines a) (split_newlines b) ops = true -> a <> b -> name_ok name = true ->
+  exists rr, read_report (report_of_script_n n a b ops name line) = Some rr /\
+             forall l, In (REq l) (rr_lines rr) ->
+                       exists l0, In l0 (split_newlines a) /\ In l0 (split_newlines b) /\
+                                  l = show_equal_line l0.
 Proof.
-  intros Hv Hne Hn. eexists. split; [apply read_report_of_script; assumption|].
-  cbn [rr_lines]. split; intros l; apply (script_lines_truthful _ _ ops l).
+  intros Hv Hne Hn. eexists. split; [apply read_report_of_script_n; assumption|].
+  cbn [rr_lines]. intros l. now apply script_context_lines_common_n.
 Qed.
 
 Theorem script_printed_context_common (a b : bytes) (ops : list opcode) (name : bytes) (line : nat) :
@@ -567,12 +734,25 @@ Theorem script_printed_context_common (a b : bytes) (ops : list opcode) (name : 
              forall l, In (REq l) (rr_lines rr) ->
                        exists l0, In l0 (split_newlines a) /\ In l0 (split_newlines b) /\
                                   l = show_equal_line l0.
-Proof.
-  intros Hv Hne Hn. eexists. split; [apply read_report_of_script; assumption|].
-  cbn [rr_lines]. intros l. now apply script_context_lines_common.
-Qed.
+Proof. exact (script_printed_context_common_n context a b ops name line). Qed.
 
 (** the residual statement on the lines read from the bytes *)
+Theorem script_printed_residual_n (n : nat) (a b : bytes) (ops : list opcode) (name : bytes)
+        (line : nat) :
+  let al := split_newlines a in
+  let bl := split_newlines b in
+  valid_script al bl ops = true -> a <> b -> name_ok name = true ->
+  exists rr, read_report (report_of_script_n n a b ops name line) = Some rr /\
+    al = concat (map (fun c => kept_a_of al c ++ deleted_of al c) ops) /\
+    bl = concat (map (fun c => kept_a_of al c ++ inserted_of bl c) ops) /\
+    map (kept_a_of al) ops = map (kept_b_of bl) ops /\
+    del_lines (rr_lines rr) = concat (map (deleted_of al) ops) /\
+    ins_lines (rr_lines rr) = concat (map (inserted_of bl) ops).
+Proof.
+  intros al bl Hv Hne Hn. eexists. split; [apply read_report_of_script_n; assumption|].
+  cbn [rr_lines]. now apply script_residual_gen_n.
+Qed.
+
 Theorem script_printed_residual (a b : bytes) (ops : list opcode) (name : bytes) (line : nat) :
   let al := split_newlines a in
   let bl := split_newlines b in
@@ -583,13 +763,52 @@ Theorem script_printed_residual (a b : bytes) (ops : list opcode) (name : bytes)
     map (kept_a_of al) ops = map (kept_b_of bl) ops /\
     del_lines (rr_lines rr) = concat (map (deleted_of al) ops) /\
     ins_lines (rr_lines rr) = concat (map (inserted_of bl) ops).
+Proof. exact (script_printed_residual_n context a b ops name line). Qed.
+
+(** two reports with the same bytes show the same lines and counts, whatever valid scripts AND
+    whatever numbers of context lines they were printed with *)
+Theorem script_printed_injective_n n a b ops name line n' a' b' ops' name' line' :
+  valid_script (split_newlines a) (split_newlines b) ops = true ->
+  valid_script (split_newlines a') (split_newlines b') ops' = true ->
+  a <> b -> name_ok name = true -> name_ok name' = true ->
+  report_of_script_n n a b ops name line = report_of_script_n n' a' b' ops' name' line' ->
+  unified_of_script_n n (split_newlines a) (split_newlines b) ops
+  = unified_of_script_n n' (split_newlines a') (split_newlines b') ops' /\
+  name = name' /\ (name <> [] -> line = line').
 Proof.
-  intros al bl Hv Hne Hn. eexists. split; [apply read_report_of_script; assumption|].
-  cbn [rr_lines]. now apply script_residual_gen.
+  intros Hv Hv' Hne Hn Hn' E.
+  assert (Hne' : a' <> b').
+  { intros Heq. apply Hne. apply (report_of_script_n_empty_iff n a b ops name line Hv). rewrite E.
+    now apply report_of_script_n_empty_iff. }
+  pose proof (read_report_of_script_n n a b ops name line Hv Hne Hn) as R.
+  pose proof (read_report_of_script_n n' a' b' ops' name' line' Hv' Hne' Hn') as R'.
+  rewrite E, R' in R. injection R as Hd Hi Hl Hf.
+  split.
+  - destruct (unified_of_script_n n (split_newlines a) (split_newlines b) ops) as [[ls i] d],
+             (unified_of_script_n n' (split_newlines a') (split_newlines b') ops') as [[ls' i'] d'].
+    cbn [r_lines r_ins r_del fst snd] in *. congruence.
+  - destruct name as [|c nm], name' as [|c' nm']; try discriminate Hf.
+    + split; [reflexivity|congruence].
+    + injection Hf as -> -> ->. split; [reflexivity|reflexivity].
 Qed.
 
-(** two reports with the same bytes show the same lines and counts, whatever valid scripts they
-    were printed from *)
+Corollary script_printed_injective_lines_n n a b ops name line n' a' b' ops' name' line' :
+  valid_script (split_newlines a) (split_newlines b) ops = true ->
+  valid_script (split_newlines a') (split_newlines b') ops' = true ->
+  a <> b -> name_ok name = true -> name_ok name' = true ->
+  report_of_script_n n a b ops name line = report_of_script_n n' a' b' ops' name' line' ->
+  r_lines (unified_of_script_n n (split_newlines a) (split_newlines b) ops)
+  = r_lines (unified_of_script_n n' (split_newlines a') (split_newlines b') ops') /\
+  r_ins (unified_of_script_n n (split_newlines a) (split_newlines b) ops)
+  = r_ins (unified_of_script_n n' (split_newlines a') (split_newlines b') ops') /\
+  r_del (unified_of_script_n n (split_newlines a) (split_newlines b) ops)
+  = r_del (unified_of_script_n n' (split_newlines a') (split_newlines b') ops').
+Proof.
+  intros Hv Hv' Hne Hn Hn' E.
+  destruct (script_printed_injective_n _ _ _ _ _ _ _ _ _ _ _ _ Hv Hv' Hne Hn Hn' E) as [-> _].
+  repeat split.
+Qed.
+
 Theorem script_printed_injective a b ops name line a' b' ops' name' line' :
   valid_script (split_newlines a) (split_newlines b) ops = true ->
   valid_script (split_newlines a') (split_newlines b') ops' = true ->
@@ -598,22 +817,7 @@ Theorem script_printed_injective a b ops name line a' b' ops' name' line' :
   unified_of_script (split_newlines a) (split_newlines b) ops
   = unified_of_script (split_newlines a') (split_newlines b') ops' /\
   name = name' /\ (name <> [] -> line = line').
-Proof.
-  intros Hv Hv' Hne Hn Hn' E.
-  assert (Hne' : a' <> b').
-  { intros Heq. apply Hne. apply (report_of_script_empty_iff a b ops name line Hv). rewrite E.
-    now apply report_of_script_empty_iff. }
-  pose proof (read_report_of_script a b ops name line Hv Hne Hn) as R.
-  pose proof (read_report_of_script a' b' ops' name' line' Hv' Hne' Hn') as R'.
-  rewrite E, R' in R. injection R as Hd Hi Hl Hf.
-  split.
-  - destruct (unified_of_script (split_newlines a) (split_newlines b) ops) as [[ls i] d],
-             (unified_of_script (split_newlines a') (split_newlines b') ops') as [[ls' i'] d'].
-    cbn [r_lines r_ins r_del fst snd] in *. congruence.
-  - destruct name as [|c nm], name' as [|c' nm']; try discriminate Hf.
-    + split; [reflexivity|congruence].
-    + injection Hf as -> -> ->. split; [reflexivity|reflexivity].
-Qed.
+Proof. exact (script_printed_injective_n context a b ops name line context a' b' ops' name' line'). Qed.
 
 (* ================================================================== *)
 (** * 5. Consistency: the existing theorems about the model's script are instances *)
@@ -806,6 +1010,68 @@ Example ex_small :
      RIns (ln "X"); RDel (ln "f"); REq (ln "g"); REq (ln "h"); REq (ln "i")].
 Proof. vm_compute. repeat split. discriminate. Qed.
 
+(* ---- the number of context lines ---- *)
+
+Local Open Scope string_scope.
+
+(* the hand-written script of the 202-line pair with 5 lines of context: one hunk, the `-`/`+`
+   lines and the counts are those of [ex_report_hand] (n = 3), two more context lines are shown *)
+Example ex_report_hand_5 :
+  report_of_script_n 5 ex_a ex_b ex_hand (B "f.snap") 3
+  = text_nl [""; "- Snapshot - 2"; "+ Received + 2"; ""; "@@ -1,12 +1,12 @@"; "";
+             "- old1"; "+ new1"; "  }"; "  }"; "  }"; "  }"; "  }"; "- old2"; "+ new2";
+             "  u1"; "  u2"; "  u3"; "  u4"; "  u5"; ""; "at f.snap:3"].
+Proof. vm_compute. reflexivity. Qed.
+
+(* with 1 line of context the five "}" lines are cut into two hunks *)
+Example ex_report_hand_1 :
+  report_of_script_n 1 ex_a ex_b ex_hand (B "f.snap") 3
+  = text_nl [""; "- Snapshot - 2"; "+ Received + 2"; ""; "@@ -1,2 +1,2 @@"; "";
+             "- old1"; "+ new1"; "  }"; "@@ -6,3 +6,3 @@"; ""; "  }"; "- old2"; "+ new2"; "  u1";
+             ""; "at f.snap:3"].
+Proof. vm_compute. reflexivity. Qed.
+
+(* n = 0 breaks nothing: no context line is shown, every change is, the report is not empty and
+   reads back to its own structure.  ([grouped_of_codes 0] cuts each Equal opcode into two empty
+   ones; the hunks are [Replace 0 1 0 1; Equal 1 1 1 1] and [Equal 6 6 6 6; Replace 6 7 6 7;
+   Equal 7 7 7 7].) *)
+Example ex_n_zero :
+  report_of_script_n 0 ex_a ex_b ex_hand (B "f.snap") 3
+  = text_nl [""; "- Snapshot - 2"; "+ Received + 2"; ""; "@@ -1 +1 @@"; "";
+             "- old1"; "+ new1"; "@@ -7 +7 @@"; ""; "- old2"; "+ new2"; ""; "at f.snap:3"]
+  /\ groups_of_script_n 0 ex_hand
+     = [[mkop Replace 0 1 0 1; mkop Equal 1 1 1 1];
+        [mkop Equal 6 6 6 6; mkop Replace 6 7 6 7; mkop Equal 7 7 7 7]]
+  /\ read_report (report_of_script_n 0 ex_a ex_b ex_hand (B "f.snap") 3)
+     = Some (report_read_of (unified_of_script_n 0 ex_al ex_bl ex_hand) (B "f.snap") 3).
+Proof. vm_compute. repeat split. Qed.
+
+Close Scope string_scope.
+
+(* for n = 0, 1, 3, 5, 1000 and the four valid scripts: the reports for different n differ (unless
+   the script has no Equal opcode), each reads back to its own structure, and the `-`/`+` lines and
+   the counts are the same for every n *)
+Example ex_n_computed :
+  forallb (fun ops =>
+    forallb (fun n =>
+      let u := unified_of_script_n n ex_al ex_bl ops in
+      lines_beq (del_lines (r_lines u)) (concat (map (deleted_of ex_al) ops)) &&
+      lines_beq (ins_lines (r_lines u)) (concat (map (inserted_of ex_bl) ops)) &&
+      (r_del u =? count_del (r_lines u)) && (r_ins u =? count_ins (r_lines u)) &&
+      (r_del u =? r_del (unified_of_script ex_al ex_bl ops)) &&
+      (r_ins u =? r_ins (unified_of_script ex_al ex_bl ops)) &&
+      match read_report (report_of_script_n n ex_a ex_b ops (B "f") 1) with
+      | Some rr => (rr_del_count rr =? r_del u) && (rr_ins_count rr =? r_ins u) &&
+                   (List.length (rr_lines rr) =? List.length (r_lines u))
+      | None => false
+      end) [0; 1; 3; 5; 1000])
+    [ex_model; ex_hand; ex_one_replace; ex_del_ins] = true
+  /\ beq (report_of_script_n 3 ex_a ex_b ex_hand [] 0) (report_of_script_n 5 ex_a ex_b ex_hand [] 0) = false
+  /\ beq (report_of_script_n 3 ex_a ex_b ex_model [] 0) (report_of_script_n 5 ex_a ex_b ex_model [] 0) = false
+  /\ beq (report_of_script_n 0 ex_a ex_b ex_hand [] 0) (report_of_script_n 1 ex_a ex_b ex_hand [] 0) = false
+  /\ report_of_script_n 3 ex_a ex_b ex_hand [] 0 = report_of_script ex_a ex_b ex_hand [] 0.
+Proof. vm_compute. repeat split. Qed.
+
 (* ================================================================== *)
 
 Print Assumptions valid_script_spec.
@@ -849,3 +1115,23 @@ Print Assumptions C13_residual_from_generic.
 Print Assumptions C13_empty_iff_from_generic.
 Print Assumptions C13_report_readable_from_generic.
 Print Assumptions ex_theorems_hold.
+Print Assumptions groups_of_script_n_context.
+Print Assumptions unified_of_script_n_context.
+Print Assumptions report_of_script_n_context.
+Print Assumptions script_counts_n.
+Print Assumptions script_del_lines_n.
+Print Assumptions script_ins_lines_n.
+Print Assumptions script_changes_independent_of_n.
+Print Assumptions script_lines_truthful_n.
+Print Assumptions script_residual_n.
+Print Assumptions script_residual_gen_n.
+Print Assumptions script_context_lines_common_n.
+Print Assumptions report_of_script_n_empty_iff.
+Print Assumptions report_of_script_n_no_esc_In.
+Print Assumptions read_report_of_script_n.
+Print Assumptions script_printed_counts_n.
+Print Assumptions script_printed_lines_truthful_n.
+Print Assumptions script_printed_context_common_n.
+Print Assumptions script_printed_residual_n.
+Print Assumptions script_printed_injective_n.
+Print Assumptions script_printed_injective_lines_n.
